@@ -1287,3 +1287,100 @@ Example ex_rejected_greeting :   (* "EHLO a" rejected with 550, then AUTH PLAIN:
   map (fun x => to_replies (snd (fst x))) tr = [[220]; [550]; [503]; []] /\
   forallb (fun x => match ev_of x with [TAuth _ _ _] => false | _ => true end) tr = true.
 Proof. split; vm_compute; reflexivity. Qed.
+
+(* ================================================================== part 11: an AUTH exchange does not
+   depend on earlier attempts.  The session state has no slot in which an earlier AUTH line could
+   leave anything (between commands the mode is MCmd); what an AUTH command and each answer line
+   do is a function of the line, of the gate-relevant part of the state and - for answer lines -
+   of the responses of THIS exchange. *)
+Definition gate_view (st : sstate) : bool * bool * bool * bool * bool :=
+  (x_auth (ex st), is_some (s_ehlo (sv st)), s_authed (sv st), s_mail (sv st), s_encrypted (sv st)).
+
+Definition auth_view (r : sres) : list N * list bytes * list tevent * exc * mode * bool :=
+  (sr_replies r, sr_chal r, sr_events r, sr_exc r, sr_mode r, sr_flush r).
+
+Section IND.
+  Variable mechs : bytes -> option mech.
+  Variable nv : env.
+
+  Lemma view_finish : forall st1 st2 c, s_encrypted (sv st1) = s_encrypted (sv st2) ->
+    auth_view (auth_finish nv st1 c) = auth_view (auth_finish nv st2 c).
+  Proof.
+    intros st1 st2 c He. unfold auth_finish, auth_view. rewrite He.
+    destruct (apply_verdict (nv_vf nv KAuth (cr_cid c)) 235); reflexivity.
+  Qed.
+
+  Lemma view_turn : forall st1 st2 m resps, s_encrypted (sv st1) = s_encrypted (sv st2) ->
+    auth_view (auth_turn nv st1 m resps) = auth_view (auth_turn nv st2 m resps).
+  Proof.
+    intros st1 st2 m resps He. unfold auth_turn.
+    destruct (m_attempt m resps); try reflexivity. apply view_finish; exact He.
+  Qed.
+
+  Lemma view_response : forall st1 st2 m resps chal resp, s_encrypted (sv st1) = s_encrypted (sv st2) ->
+    auth_view (auth_response nv st1 m resps chal resp) = auth_view (auth_response nv st2 m resps chal resp).
+  Proof.
+    intros st1 st2 m resps chal resp He. unfold auth_response.
+    destruct (beqb resp STAR); [reflexivity|].
+    destruct (b64_dec resp); [apply view_turn; exact He|reflexivity].
+  Qed.
+
+  Theorem auth_command_independent : forall st1 st2 arg, gate_view st1 = gate_view st2 ->
+    auth_view (t_command_AUTH mechs nv st1 arg) = auth_view (t_command_AUTH mechs nv st2 arg).
+  Proof.
+    intros st1 st2 arg H. unfold gate_view in H. injection H as H1 H2 H3 H4 H5.
+    unfold t_command_AUTH. rewrite H1, H2, H3, H4, H5.
+    destruct (negb (x_auth (ex st2))); [reflexivity|].
+    destruct (negb (is_some (s_ehlo (sv st2))) || s_authed (sv st2) || s_mail (sv st2)); [reflexivity|].
+    destruct (negb (nonempty arg)); [reflexivity|].
+    destruct (parse_auth_arg (arg_bytes arg)) as [|n|n a]; [reflexivity| |];
+      (destruct (mechs n) as [m|]; [|reflexivity]);
+      (destruct (m_insecure m && negb (s_encrypted (sv st2))); [reflexivity|]).
+    - apply view_turn; exact H5.
+    - destruct (m_attempt m []); try reflexivity; [apply view_finish|apply view_response]; exact H5.
+  Qed.
+
+  (* the state an exchange leaves depends on the state before it only through the same update *)
+  Theorem auth_command_state : forall st arg,
+    sr_st (t_command_AUTH mechs nv st arg) = st \/
+    exists c, In (TAuth (s_encrypted (sv st)) c (Some 235)) (sr_events (t_command_AUTH mechs nv st arg)) /\
+              sr_st (t_command_AUTH mechs nv st arg) =
+              {| sv := set_authed true (sv st); ex := ex st; ed := set_e_auth (Some (cr_cid c)) (ed st) |}.
+  Proof.
+    assert (F : forall st c, sr_st (auth_finish nv st c) = st \/
+              exists c0, In (TAuth (s_encrypted (sv st)) c0 (Some 235)) (sr_events (auth_finish nv st c)) /\
+                         sr_st (auth_finish nv st c) =
+                         {| sv := set_authed true (sv st); ex := ex st; ed := set_e_auth (Some (cr_cid c0)) (ed st) |}).
+    { intros st c. unfold auth_finish. destruct (apply_verdict (nv_vf nv KAuth (cr_cid c)) 235) as [code|]; [|left; reflexivity].
+      destruct (code =? 235) eqn:E.
+      - apply N.eqb_eq in E; subst. right. exists c. cbn. split; [left; reflexivity|reflexivity].
+      - left. cbn. destruct st as [s x d]; reflexivity. }
+    assert (T : forall st m resps, sr_st (auth_turn nv st m resps) = st \/
+              exists c0, In (TAuth (s_encrypted (sv st)) c0 (Some 235)) (sr_events (auth_turn nv st m resps)) /\
+                         sr_st (auth_turn nv st m resps) =
+                         {| sv := set_authed true (sv st); ex := ex st; ed := set_e_auth (Some (cr_cid c0)) (ed st) |}).
+    { intros st m resps. unfold auth_turn. destruct (m_attempt m resps); try (left; reflexivity). apply F. }
+    intros st arg. unfold t_command_AUTH.
+    destruct (negb (x_auth (ex st))); [left; reflexivity|].
+    destruct (negb (is_some (s_ehlo (sv st))) || s_authed (sv st) || s_mail (sv st)); [left; reflexivity|].
+    destruct (negb (nonempty arg)); [left; reflexivity|].
+    destruct (parse_auth_arg (arg_bytes arg)) as [|n|n a]; [left; reflexivity| |];
+      (destruct (mechs n) as [m|]; [|left; reflexivity]);
+      (destruct (m_insecure m && negb (s_encrypted (sv st))); [left; reflexivity|]).
+    - apply T.
+    - destruct (m_attempt m []); try (left; reflexivity); [apply F|].
+      unfold auth_response. destruct (beqb a STAR); [left; reflexivity|].
+      destruct (b64_dec a); [apply T|left; reflexivity].
+  Qed.
+End IND.
+
+(* two AUTH PLAIN attempts in one immediate-TLS session, the first refused (unknown mechanism with an
+   initial response), the second in challenge form: the second one is challenged *)
+Example ex_second_attempt_challenged :
+  let w := (* "EHLO a\r\nAUTH NTLM AHUAcA==\r\nAUTH PLAIN\r\n" *)
+      [69;72;76;79;32;97;13;10; 65;85;84;72;32;78;84;76;77;32;65;72;85;65;99;65;61;61;13;10;
+       65;85;84;72;32;80;76;65;73;78;13;10] in
+  map (fun x => to_replies (snd (fst x)))
+      (t_session ex_mechs 60 (ex_cfg true) (keep_env true) {| w_plain := []; w_tls := [w] |})
+  = [[220]; [250]; [504]; [334]; []].
+Proof. vm_compute. reflexivity. Qed.
